@@ -41,6 +41,8 @@ type c05KUConfig struct {
 	interval uint64 // SetKeyUpdateInterval
 	monitor  bool   // compare every genuine packet with ref5 (false: the adversary uses the implementation's own derivation)
 	tier     int    // 1: thorough tier only
+	// extraDepth is added to the thorough tier's depth bound (10)
+	extraDepth int
 }
 
 const (
@@ -529,7 +531,7 @@ func c05KeyUpdatePart(name string, cfg c05KUConfig) explore.Part {
 		sh := c05KUNewShared(cfg)
 		depth := 8
 		if e.Thorough() {
-			depth = 10
+			depth = 10 + cfg.extraDepth
 		}
 		return explore.BFSSpec{
 			New:              func() explore.Instance { return c05KUNew(sh) },
